@@ -53,24 +53,52 @@ THEOREMS = [NS + n for n in (
     "C07_roundtrip_value",
     "C07_serialize_sees_unloaded",
     "C07_placement_shard",
+    "C07_st_cover",
+    "C07_st_disjoint",
+    "C07_st_within",
+    "C07_st_order",
+    "C07_st_readback",
+    "C07_st_roundtrip",
+    "C07_st_dtype_roundtrip",
+    "C07_model_restored_checked",
+    "C07_setter_nodebug",
+    "C07_restore_stops",
+    "C07_roundtrip_value_c04",
+    "C07_readback_shared",
+    "C07_rawBackend_ok",
+    "C07_sequence_preserves",
+    "C07_sequence_init",
+    "C07_sequence_save_load",
 )]
 ASSUMPTIONS = [
-    "tensor.nbytes == len(tensor.tobytes()) for every written tensor (C04); a LazyTensor whose function "
-    "returns a tensor of another size than declared is outside the statement",
-    "initializer names are unique per graph (and across graphs for safetensors, which rejects duplicates up front); "
-    "the tensor's own name is free: unnamed, differently named and shared tensor objects are generated on both backends",
+    "tensor.nbytes == len(tensor.tobytes()): imported from C04 for tensors given by element width + elements "
+    "(C07_roundtrip_value_c04 uses C04_nbytes); for an arbitrary TensorProtocol object (LazyTensor whose function returns "
+    "another size, third-party tensors) it remains the hypothesis hlen of C07_roundtrip_value",
+    "initializer names: the raw backend is positional (names play no role; same name in main graph and subgraph, shared "
+    "tensor objects: C07_readback_shared, generated); the safetensors backend re-points BY NAME (stReplace) and the theorem "
+    "C07_st_roundtrip has the hypothesis 'names pairwise different', which is the check save_safetensors performs up front "
+    "(stNamesOk: duplicates and the reserved name __metadata__ are rejected before anything is written; both generated)",
     "external_data paths: os.path.normpath of the recorded location is Python's (the model works on the path as "
     "given and the harness normalises the model's answer); un-normalised relative paths and the rejection of an "
     "absolute path are generated; the path algebra itself is C10's model",
     "name, dtype and shape of an initializer survive the proto round trip: checked on every case (differential), "
     "proved in C02/C03, not here",
-    "safetensors: the layout inside a file (header, order, offsets) is the library's; there is NO read-back theorem "
-    "for that backend (placeSt records offset 0) - shard assignment, names, lengths, classification and restore are "
-    "modelled and proved, non-overlap / within-file / payload bytes are checked by the oracle on every case",
+    "safetensors container: the writer (ordering by descending dtype then name, contiguous data_offsets, JSON header "
+    "padded with spaces to 8 bytes, the binding's dtype names, F4's doubled last dimension) is the safetensors library's; "
+    "it is MODELLED (Model/LayoutSt.lean) and compared with the real library byte for byte on every run (whole file images "
+    "of generated shards and of every generated save), not verified; JSON parse(print(x)) = x for the header is assumed "
+    "(the model's reader works on the entries, _read_safetensors' arithmetic begin+N+8 / end-begin is modelled)",
     "file system: seek past EOF leaves a hole that reads as zeros; os.replace is atomic (C08); thread schedules "
     "of the parallel writer are modelled as an arbitrary order of the writes (the protocol itself is C09)",
-    "the restore loop cannot raise (Value.const_value is a plain attribute store of an object that was there "
-    "before); exceptions are modelled at the validation, load-to-memory, write, serialization and proto-save points",
+    "the restore loop is modelled step by step through the const_value setter (restoreLoop): it cannot raise when every "
+    "original const_value passes the setter's check, which is always so outside onnx_ir.DEBUG mode (C07_setter_nodebug); "
+    "in DEBUG mode with a duck-typed tensor it raises and stops (C07_restore_stops; observation D430, counted, outside the "
+    "C07 statement); asynchronous exceptions (KeyboardInterrupt inside the loop) are not modelled",
+    "call sequences: references into a data file that a later save replaced are 'stale' and nothing is claimed about them "
+    "(the raw writer invalidates the large ones; small ones and the safetensors backend do not: observations D431/D433, "
+    "counted); a call handed a stale tensor is outside the sequence theorem; Backend.Ok is proved for the raw backend "
+    "(C07_rawBackend_ok), for the safetensors backend it follows from C07_st_roundtrip + C07_threshold_st but the "
+    "instance is not formalised: safetensors steps of sequences are oracle-only",
     "POSIX path semantics (posixpath.split/splitext/join) for shard names",
 ]
 
@@ -91,6 +119,29 @@ _ITEMBITS = {
     "FLOAT8E4M3FN": 8, "FLOAT8E5M2": 8, "FLOAT8E4M3FNUZ": 8, "FLOAT8E5M2FNUZ": 8, "FLOAT8E8M0": 8,
     "COMPLEX64": 64, "COMPLEX128": 128, "INT4": 4, "UINT4": 4, "FLOAT4E2M1": 4, "INT2": 2, "UINT2": 2,
 }
+
+
+# safetensors container (independent of the model and of onnx_ir's tables): header dtype string and position in
+# the writer's dtype order (ascending; the writer sorts descending, then by name) per ONNX dtype
+_ST_HEADER = {
+    "BOOL": ("BOOL", 0), "FLOAT4E2M1": ("F4", 1), "UINT8": ("U8", 2), "INT8": ("I8", 3), "FLOAT8E5M2": ("F8_E5M2", 4),
+    "FLOAT8E4M3FN": ("F8_E4M3", 5), "FLOAT8E8M0": ("F8_E8M0", 6), "INT16": ("I16", 7), "UINT16": ("U16", 8),
+    "FLOAT16": ("F16", 9), "BFLOAT16": ("BF16", 10), "INT32": ("I32", 11), "UINT32": ("U32", 12), "FLOAT": ("F32", 13),
+    "COMPLEX64": ("C64", 14), "DOUBLE": ("F64", 15), "INT64": ("I64", 16), "UINT64": ("U64", 17),
+    "FLOAT8E4M3FNUZ": ("U8", 2), "FLOAT8E5M2FNUZ": ("U8", 2), "INT4": ("U8", 2), "UINT4": ("U8", 2), "INT2": ("U8", 2),
+    "UINT2": ("U8", 2),
+}
+
+
+def parse_safetensors(raw: bytes):
+    """(N, [(name, dtype, shape, begin, end)] in header order, metadata or None) of a safetensors file image."""
+    import json
+    import struct
+
+    n = struct.unpack("<Q", raw[:8])[0]
+    hdr = json.loads(raw[8 : 8 + n].decode("utf-8"))  # dict order = header order
+    meta = hdr.pop("__metadata__", None)
+    return n, [(k, v["dtype"], list(v["shape"]), v["data_offsets"][0], v["data_offsets"][1]) for k, v in hdr.items()], meta
 
 
 def _prod(shape):
@@ -481,6 +532,7 @@ def _run_case_in(case: dict, res: dict, fail, backend: str) -> dict:
             occ = sum(1 for k in range(kmiss) if is_mem_class(k))
         phase = {None: "none", "lazy_raises": "write", "validate": "validate", "exists": "validate",
                  "missing_ext": "loadMem", "early": "early", "dup_name": "early", "abs_path": "early",
+                 "reserved_name": "early",
                  "serialize": "serialize", "small_lazy_raises": "serialize", "format": "protoSave"}[expect_fail]
         if expect_fail == "exists":
             occ = 1  # the second validation point: the sharded writer's pre-flight check
@@ -544,6 +596,9 @@ def _run_case_in(case: dict, res: dict, fail, backend: str) -> dict:
                 "name-mismatch" if mismatch and isinstance(raised, AssertionError) else "other")
             fail(f"save-raises:{backend}:{type(raised).__name__}:{why}", f"save raised {type(raised).__name__}: {raised}")
             return res
+        if raised is None and expect_fail == "reserved_name":
+            fail("st-reserved-name:__metadata__", "save_safetensors accepted an initializer named __metadata__ (the header "
+                 "key reserved for file metadata): the entry is skipped on read-back and the file is not a valid container")
         if raised is None and expect_fail is not None:
             res["what"].append("raise-expected")
             res["reqs"].append({"m": "layout.pad5", "n": 0})
@@ -593,6 +648,74 @@ def _run_case_in(case: dict, res: dict, fail, backend: str) -> dict:
                 res["reqs"].append({"m": "layout.split_st", "inits": flat, "thr": case["thr"]})
             res["impl"].append({"ext": obs_ext, "mem": obs_mem})
             res["what"].append("classification")
+        # K6 (safetensors container): the written files byte for byte, the record (file, offset, length) and the
+        # dtype/shape every saved value holds, against the container model; and an independent oracle on the parsed
+        # header: 8-byte length, N % 8 == 0, ranges contiguous from 0 (no overlap, inside, exact cover), order by
+        # descending dtype then name, every name once, reading [begin,end) returns the tensor's bytes
+        if backend == "st" and raised is None and mid is not None:
+            saved = [k for k in range(len(values)) if mid[k] is not before[k] and isinstance(mid[k], ir.ExternalTensor)]
+            st_locs: list = []
+            for k in saved:
+                loc = os.fspath(mid[k].location)
+                if loc not in st_locs:
+                    st_locs.append(loc)
+            raws = []
+            for loc in st_locs:
+                with open(os.path.join(base_dir, loc), "rb") as f:
+                    raws.append(f.read())
+            if sum(len(r) for r in raws) <= 300000:
+                tens = [{"name": specs[decl[k][2]]["name"], "dtype": ir.DataType[specs[decl[k][2]]["dtype"]].value,
+                         "shape": specs[decl[k][2]]["shape"], "b": _hex(datas[decl[k][2]])} for k in saved]
+                res["reqs"].append({"m": "layout.st_save", "tensors": tens, "max": case["max"]})
+                res["impl"].append({
+                    "files": [_hex(r) for r in raws],
+                    "places": [[st_locs.index(os.fspath(mid[k].location)), len(st_locs), mid[k].offset, mid[k].length]
+                               for k in saved],
+                    "reload": [[mid[k].dtype.value, list(mid[k].shape.numpy())] for k in saved],
+                    "reads": [_hex(datas[decl[k][2]]) for k in saved]})
+                res["what"].append("st-container")
+            by_name = {specs[decl[k][2]]["name"]: k for k in saved}
+            seen_names: list = []
+            for loc, raw in zip(st_locs, raws):
+                try:
+                    n_hdr, entries, _meta = parse_safetensors(raw)
+                except Exception as e:  # noqa: BLE001
+                    fail("st-container:unparsable-header", f"{loc}: {type(e).__name__}: {e}")
+                    continue
+                if n_hdr % 8:
+                    fail("st-container:header-not-8-aligned", f"{loc}: header length {n_hdr}")
+                cur, prev_key = 0, None
+                for (nm, dt, shp, b, e_) in entries:
+                    seen_names.append(nm)
+                    if b != cur or e_ < b:
+                        fail("st-container:ranges-not-contiguous", f"{loc}: entry {nm!r} [{b},{e_}) after end {cur}",
+                             entries=[list(x) for x in entries])
+                        break
+                    cur = e_
+                    k = by_name.get(nm)
+                    if k is None:
+                        fail("st-container:unknown-entry", f"{loc}: entry {nm!r} is not a saved initializer")
+                        continue
+                    sp = specs[decl[k][2]]
+                    want_dt, rank = _ST_HEADER[sp["dtype"]]
+                    if dt != want_dt:
+                        fail(f"st-container:dtype:{sp['dtype']}", f"{loc}: entry {nm!r} has dtype {dt}, expected {want_dt}")
+                    key = (-rank, nm.encode("utf-8"))
+                    if prev_key is not None and key < prev_key:
+                        fail("st-container:order", f"{loc}: entries not ordered by descending dtype then name",
+                             entries=[list(x[:2]) for x in entries])
+                    prev_key = key
+                    if raw[8 + n_hdr + b : 8 + n_hdr + e_] != datas[decl[k][2]]:
+                        fail(f"st-container:bytes:{sp['kind']}", f"{loc}: bytes of entry {nm!r} differ from the tensor")
+                    if (mid[k].offset, mid[k].length) != (8 + n_hdr + b, e_ - b) or os.fspath(mid[k].location) != loc:
+                        fail("st-container:record", f"value {nm!r} records ({mid[k].offset},{mid[k].length}) but its entry "
+                             f"is at ({8 + n_hdr + b},{e_ - b}) of {loc}")
+                if len(raw) != 8 + n_hdr + cur:
+                    fail("st-container:exact-cover", f"{loc}: file size {len(raw)} != 8 + {n_hdr} + {cur}")
+            if sorted(seen_names) != sorted(by_name):
+                fail("st-container:names", "header entries over all files are not exactly the saved initializers",
+                     got=sorted(seen_names), want=sorted(by_name))
+            res["info"]["st_files"] = len(st_locs)
         # the save as an effect sequence: the model computes the re-pointing itself (fresh id 1000+k for the
         # object created for position k) from the initializer list; compared with the store observed at the
         # moment the failure surfaced (or at serialization) and after the call
@@ -815,6 +938,343 @@ def _run_case_in(case: dict, res: dict, fail, backend: str) -> dict:
     return res
 
 
+# ------------------------------------------------------------------------------------------
+# deepening round: the restore loop through the const_value setter (DEBUG mode), call sequences
+
+
+def _simple_model(tensors):
+    import onnx_ir as ir
+
+    vs = [ir.Value(name=f"w{i}", const_value=t) for i, t in enumerate(tensors)]
+    x = ir.Value(name="x", type=ir.TensorType(ir.DataType.FLOAT), shape=ir.Shape([1]))
+    y = ir.Value(name="y")
+    g = ir.Graph([x], [y], nodes=[ir.Node("", "Identity", [x], outputs=[y])], initializers=vs,
+                 opset_imports={"": 20}, name="main")
+    return ir.Model(g, ir_version=10), vs
+
+
+def run_debug_case(case: dict) -> dict:
+    """ir.save / save_safetensors with onnx_ir.DEBUG as given and duck-typed (non-TensorProtocol) tensors at the
+    given positions: store after the call and whether the call raised TypeError from the restore loop."""
+    import logging
+
+    import onnx_ir as ir
+
+    logging.getLogger("onnx_ir").setLevel(logging.ERROR)
+    res = {"case": case, "fails": [], "reqs": [], "impl": [], "what": [], "info": {}, "kind": "debug"}
+    old_debug = ir.DEBUG
+    try:
+        with tempfile.TemporaryDirectory(prefix="c07d-", dir=_run_dir()) as tmp:
+            tensors = []
+            for i, (n, duck) in enumerate(zip(case["sizes"], case["duck"])):
+                data = bytes((7 * i + j) % 251 for j in range(n))
+                if duck:
+                    tensors.append(_CustomTensor(f"w{i}", ir.DataType.UINT8, ir.Shape([n]), data))
+                else:
+                    tensors.append(ir.Tensor(np.frombuffer(data, dtype=np.uint8), name=f"w{i}"))
+            model, vs = _simple_model(tensors)
+            protos = [isinstance(t, ir.TensorProtocol) for t in tensors]
+            ir.DEBUG = bool(case["debug"])
+            raised = None
+            try:
+                if case["backend"] == "raw":
+                    ir.save(model, os.path.join(tmp, "m.onnx"), external_data="m.data", size_threshold_bytes=case["thr"])
+                else:
+                    ir.save_safetensors(model, os.path.join(tmp, "m.onnx"), size_threshold_bytes=case["thr"])
+            except BaseException as e:  # noqa: BLE001
+                raised = e
+            finally:
+                ir.DEBUG = old_debug
+            after = [v.const_value for v in vs]
+            fin = [k if after[k] is tensors[k] else 1000 + k for k in range(len(vs))]
+            res["info"] = {"raised": type(raised).__name__ if raised else None,
+                           "restored": all(a is b for a, b in zip(after, tensors)),
+                           "hyp": (not case["debug"]) or all(protos)}
+            res["reqs"].append({"m": "layout.save_run_checked", "backend": case["backend"],
+                                "inits": [[n, 0, 1, 0] for n in case["sizes"]], "thr": case["thr"], "fresh": 1000,
+                                "store": list(range(len(vs))), "debug": bool(case["debug"]),
+                                "nonproto": [k for k, ok in enumerate(protos) if not ok]})
+            res["impl"].append({"fin": fin, "raised": isinstance(raised, TypeError)})
+            res["what"].append("restore-loop")
+            if raised is not None and not isinstance(raised, TypeError):
+                res["fails"].append({"signature": f"save-raises:{case['backend']}:{type(raised).__name__}:debug-family",
+                                     "what": f"save raised {type(raised).__name__}: {raised}", "case": case})
+            # the C07 clause "same tensor objects afterwards" under the hypothesis of C07_model_restored_checked
+            if res["info"]["hyp"] and not res["info"]["restored"]:
+                res["fails"].append({"signature": f"restore:{case['backend']}:setter-accepts-all-but-not-restored",
+                                     "what": "every original const_value passes the setter's check, yet the model is not "
+                                             "restored", "case": case})
+    finally:
+        ir.DEBUG = old_debug
+    return res
+
+
+_SEQ_BASES = ["A.data", "B.data"]
+
+
+def _seq_key(loc: str):
+    m = re.search(r"-(\d{5,})-of-(\d{5,})", loc)
+    base = re.sub(r"-\d{5,}-of-\d{5,}", "", loc)
+    return base, (int(m.group(1)) - 1 if m else 0), (int(m.group(2)) if m else 1)
+
+
+def run_seq_case(case: dict) -> dict:
+    """A call sequence save / load / load_to_model / unload_from_model / convert_tensors_from_external on one model
+    directory.  After every call: where every initializer of the caller's model lives (against the sequence model,
+    raw backend) and what it reads (oracle: a reference the model calls valid reads the original bytes; after a
+    save + load every initializer does)."""
+    import logging
+
+    import onnx_ir as ir
+
+    logging.getLogger("onnx_ir").setLevel(logging.ERROR)
+    res = {"case": case, "fails": [], "reqs": [], "impl": [], "what": [], "info": {}, "kind": "seq"}
+    V = [bytes((11 * i + j) % 253 for j in range(n)) for i, n in enumerate(case["sizes"])]
+    obs = {"D431": 0, "D433": 0}
+    with tempfile.TemporaryDirectory(prefix="c07s-", dir=_run_dir()) as tmp:
+        path = os.path.join(tmp, "m.onnx")
+        model, _ = _simple_model([ir.Tensor(np.frombuffer(b, dtype=np.uint8), name=f"w{i}") for i, b in enumerate(V)])
+        bases: list = []   # base name -> id in the model's file keys
+        stale: set = set()  # positions of the caller's model the sequence model calls stale
+        steps, ops_done, has_disk, last_backend = [], [], False, None
+        disk_refs, disk_stale = [], set()  # the saved proto's references; those a later unload made stale
+        all_raw = True
+
+        def base_id(name):
+            if name not in bases:
+                bases.append(name)
+            return bases.index(name)
+
+        def snapshot(m):
+            out = []
+            for k, v in enumerate(m.graph.initializers.values()):
+                t = v.const_value
+                if isinstance(t, ir.ExternalTensor):
+                    b, i, n = _seq_key(os.fspath(t.location))
+                    out.append(["E", base_id(b), i, n, t.offset or 0, t.length])
+                else:
+                    out.append(["I"])
+            return out
+
+        def read(m, k):
+            t = list(m.graph.initializers.values())[k].const_value
+            try:
+                return bytes(t.tobytes())
+            except BaseException as e:  # noqa: BLE001
+                return e
+            finally:
+                # drop the memory map the read opened: a cached map of the old inode would hide a save that reads
+                # its sources only after it has overwritten them (D432)
+                if isinstance(t, ir.ExternalTensor):
+                    try:
+                        t.release()
+                    except BaseException:  # noqa: BLE001
+                        pass
+
+        for op in case["ops"]:
+            op = dict(op)
+            if op["op"] != "load" and stale:
+                if not has_disk:
+                    break
+                op = {"op": "load"}  # a stale tensor must not be handed to a call: reload first (the documented way)
+            kind = op["op"]
+            try:
+                if kind in ("save", "unload"):
+                    before = snapshot(model)
+                    if kind == "save":
+                        ir.save(model, path, external_data=op["ext"], size_threshold_bytes=op["thr"],
+                                max_shard_size_bytes=op["max"], alignment=op["al"], align_threshold=op["athr"],
+                                max_workers=op.get("workers"))
+                        has_disk = True
+                        proto_refs = snapshot(ir.load(path))
+                    else:
+                        ir.external_data.unload_from_model(model, tmp, op["ext"], size_threshold_bytes=op["thr"],
+                                                           max_shard_size_bytes=op["max"], alignment=op["al"],
+                                                           align_threshold=op["athr"])
+                        proto_refs = snapshot(model)
+                    written = {tuple(r[1:4]) for r in proto_refs if r[0] == "E"}
+                    if not written and op["max"] is None:
+                        written = {(base_id(op["ext"]), 0, 1)}  # an empty data file is still written
+                    if kind == "save":
+                        stale |= {k for k, r in enumerate(before) if r[0] == "E" and tuple(r[1:4]) in written}
+                        disk_refs, disk_stale = proto_refs, set()
+                    else:
+                        stale = set()
+                        disk_stale |= {k for k, r in enumerate(disk_refs) if r[0] == "E" and tuple(r[1:4]) in written}
+                    ops_done.append({"op": kind, "base": base_id(op["ext"]), "thr": op["thr"], "max": op["max"],
+                                     "al": op["al"], "athr": op["athr"]})
+                    last_backend = "raw"
+                elif kind == "save_st":
+                    before = snapshot(model)
+                    ir.save_safetensors(model, path, size_threshold_bytes=op["thr"], max_shard_size_bytes=op["max"])
+                    has_disk, all_raw, last_backend = True, False, "st"
+                    disk_refs, disk_stale = snapshot(ir.load(path)), set()
+                    written = {tuple(r[1:4]) for r in disk_refs if r[0] == "E"}
+                    stale |= {k for k, r in enumerate(before) if r[0] == "E" and tuple(r[1:4]) in written}
+                    ops_done.append({"op": "save_st"})
+                elif kind == "load":
+                    if not has_disk:
+                        continue
+                    model = ir.load(path)
+                    stale = set(disk_stale)
+                    ops_done.append({"op": "load"})
+                    # the oracle of the sequence property: after a save that ran to the end + load, every
+                    # initializer reads its original bytes (unless a later in-place unload replaced its file)
+                    for k in range(len(V)):
+                        if k in stale:
+                            continue
+                        got = read(model, k)
+                        if got != V[k]:
+                            sig = ("sequence:st:reshard-overwrites-source" if last_backend == "st"
+                                   else "sequence:raw:reload-differs")
+                            res["fails"].append({"signature": sig, "what": f"initializer {k} reads "
+                                                 f"{got if isinstance(got, BaseException) else 'other bytes'} after save + load",
+                                                 "case": {**case, "ops_done": ops_done}})
+                            break
+                elif kind == "load_to_model":
+                    ir.external_data.load_to_model(model)
+                    ops_done.append({"op": "load_to_model"})
+                elif kind == "convert":
+                    v = list(model.graph.initializers.values())[op["k"] % len(V)] if V else None
+                    if v is None or not isinstance(v.const_value, ir.ExternalTensor):
+                        continue
+                    v.const_value = ir.external_data.convert_tensors_from_external([v.const_value])[0]
+                    ops_done.append({"op": "convert", "k": op["k"] % len(V)})
+            except BaseException as e:  # noqa: BLE001
+                res["fails"].append({"signature": (f"sequence:st:reshard-overwrites-source:{type(e).__name__}" if kind == "save_st"
+                                                   else f"sequence:{kind}:raised:{type(e).__name__}"),
+                                     "what": f"{kind} raised {type(e).__name__}: {e}",
+                                     "case": {**case, "ops_done": ops_done}})
+                break
+            snap = snapshot(model)
+            vals = []
+            for k in range(len(V)):
+                if k in stale:
+                    got = read(model, k)
+                    if not isinstance(got, BaseException) and got != V[k]:
+                        obs["D433" if last_backend == "st" else "D431"] += 1  # stale AND silently other bytes
+                    snap[k] = ["S"]
+                    vals.append(None)
+                else:
+                    got = read(model, k)
+                    if got != V[k]:
+                        res["fails"].append({"signature": f"sequence:{last_backend or 'none'}:valid-reference-reads-other-bytes",
+                                             "what": f"after {kind}: initializer {k} is not stale but reads "
+                                                     f"{got if isinstance(got, BaseException) else 'other bytes'}",
+                                             "case": {**case, "ops_done": ops_done}})
+                    vals.append(_hex(V[k]))
+            steps.append({"mem": snap, "vals": vals})
+        if all_raw and ops_done:
+            res["reqs"].append({"m": "layout.seq", "vals": [_hex(b) for b in V], "ops": ops_done})
+            res["impl"].append({"steps": steps})
+            res["what"].append("sequence")
+        res["info"] = {"ops": [o["op"] for o in ops_done], "obs": obs, "all_raw": all_raw,
+                       "stale_seen": any(r == ["S"] for st_ in steps for r in st_["mem"])}
+    return res
+
+
+def gen_debug_case(rng: random.Random) -> dict:
+    n = rng.choice([1, 2, 3, 4, 5])
+    sizes = [rng.choice([0, 1, 7, 64, 300]) for _ in range(n)]
+    duck = [rng.random() < 0.35 for _ in range(n)]
+    return {"family": "debug", "backend": rng.choice(["raw", "raw", "st"]), "sizes": sizes, "duck": duck,
+            "debug": rng.random() < 0.75, "thr": rng.choice([0, 0, 8, 100, 10**6])}
+
+
+def gen_seq_case(rng: random.Random) -> dict:
+    if rng.random() < 0.08:
+        # re-sharding onto the same safetensors shard names with a tensor moving to a LATER shard (D432): a lower
+        # threshold adds a small tensor in front, so the 4th tensor moves from shard 1 to shard 2 of 2
+        s0, z = rng.choice([1, 7, 50]), rng.choice([64, 100])
+        return {"family": "seq", "sizes": [s0] + [z] * 5, "template": "reshard-later",
+                "ops": [{"op": "save_st", "thr": s0 + 1, "max": 3 * z}, {"op": "load"},
+                        {"op": "save_st", "thr": 0, "max": 3 * z}, {"op": "load"}]}
+    n = rng.choice([1, 2, 3, 4, 6])
+    sizes = [rng.choice([1, 7, 50, 64, 100, 300]) for _ in range(n)]
+    use_st = rng.random() < 0.3
+    ops, fresh = [], 0
+    for _ in range(rng.choice([2, 3, 4, 5, 6, 7])):
+        r = rng.random()
+        if r < 0.45:
+            mx = rng.choice([None, None, None, 100, 300, max(1, sum(sizes) // 2)])
+            if use_st and rng.random() < 0.7:
+                ops.append({"op": "save_st", "thr": rng.choice([0, 8, 60, 64, 101]), "max": mx})
+            else:
+                if mx is None:
+                    # mostly the file of the previous single-file save: re-saving onto the files the loaded
+                    # model's own tensors live in is what makes references stale
+                    prev = [o["ext"] for o in ops if o.get("ext") in _SEQ_BASES]
+                    ext = prev[-1] if prev and rng.random() < 0.7 else rng.choice(_SEQ_BASES)
+                else:
+                    fresh += 1
+                    ext = f"S{fresh}.data"  # the sharded writer refuses existing files: a new base every time
+                al = rng.choice([None, None, 4096])
+                ops.append({"op": rng.choice(["save", "save", "save", "unload"]), "ext": ext,
+                            "thr": rng.choice([0, 8, 60, 64, 101, 10**6]), "max": mx, "al": al,
+                            "athr": rng.choice([0, 60]) if al else 0, "workers": rng.choice([None, None, 3])})
+        elif r < 0.82:
+            ops.append({"op": "load"})
+        elif r < 0.9:
+            ops.append({"op": "load_to_model"})
+        else:
+            ops.append({"op": "convert", "k": rng.randrange(8)})
+    return {"family": "seq", "sizes": sizes, "ops": ops}
+
+
+def run_deep_chunk(cases: list[dict]) -> list[dict]:
+    out = []
+    for c in cases:
+        try:
+            out.append(run_debug_case(c) if c["family"] == "debug" else run_seq_case(c))
+        except BaseException:  # noqa: BLE001 - harness problem: reported as a disagreement
+            import traceback
+
+            out.append({"case": c, "fails": [], "reqs": [{"m": "layout.pad5", "n": 0}],
+                        "impl": [{"r": "harness error " + traceback.format_exc()[-800:]}], "what": ["harness"],
+                        "info": {}, "kind": c["family"]})
+    return out
+
+
+def _compare_deep(ctx: Ctx, results: list[dict]) -> None:
+    reqs = [r for res in results for r in res["reqs"]]
+    outs = lean_batch_parallel(reqs) if reqs else []
+    pos = 0
+    for res in results:
+        case, info = res["case"], res["info"]
+        if res["kind"] == "debug":
+            ctx.case(case, nontrivial=True, sample={**case, "result": info}, family="restore-loop", backend=case["backend"],
+                     debug=case["debug"], hyp_setter_accepts_originals=info.get("hyp"), restored=info.get("restored"),
+                     raised=info.get("raised"))
+            if info.get("hyp") is False and info.get("restored") is False:
+                ctx.count("observation=D430")
+        else:
+            ctx.case(case, nontrivial=True, sample={**case, "result": info}, family="sequence",
+                     seq_len=len(info.get("ops", [])), seq_all_raw=info.get("all_raw"), seq_stale_seen=info.get("stale_seen"),
+                     seq_template=case.get("template"))
+            for o in info.get("ops", []):
+                ctx.count(f"seq_op={o}")
+            for key, n in (info.get("obs") or {}).items():
+                if n:
+                    ctx.count(f"observation={key}", n)
+        for f in res["fails"]:
+            ctx.fail(f["signature"], f["what"], f["case"])
+        for req, impl, what in zip(res["reqs"], res["impl"], res["what"]):
+            out = outs[pos]
+            pos += 1
+            if what == "sequence":
+                got = [{"mem": st_.get("mem"), "vals": st_.get("vals")} if isinstance(st_, dict) else st_
+                       for st_ in out.get("steps", [])]
+                if got != impl["steps"]:
+                    first = next((i for i, (a, b) in enumerate(zip(got, impl["steps"])) if a != b), min(len(got), len(impl["steps"])))
+                    ctx.disagree(f"sequence: model != implementation at step {first}", case,
+                                 _short(got[first:first + 1]), _short(impl["steps"][first:first + 1]))
+            else:
+                bad = [k for k in impl if out.get(k) != impl[k]]
+                if bad or "err" in out:
+                    ctx.disagree(f"{what}: model != implementation on {bad or out.get('err')}", case,
+                                 {k: _short(out.get(k)) for k in (bad or ["err"])}, {k: _short(impl[k]) for k in bad})
+
+
 _RUN_DIR: list = []
 _TMP_ROOT = os.path.join(os.path.dirname(os.path.dirname(os.path.abspath(__file__))), ".work", "tmp-c07")
 
@@ -986,7 +1446,7 @@ def gen_fail_case(rng: random.Random, backend: str) -> dict:
     mode = rng.choice(["lazy_raises", "serialize", "format", "validate", "early", "exists", "missing_ext",
                        "small_lazy_raises", "abs_path"])
     if backend == "st" and mode in ("validate", "early", "exists", "abs_path"):
-        mode = rng.choice(["lazy_raises", "serialize", "format", "dup_name", "missing_ext"])
+        mode = rng.choice(["lazy_raises", "serialize", "format", "dup_name", "missing_ext", "reserved_name"])
     # external sources in the destination file would be invalidated; keep them out of failing saves? no: keep.
     i = len(specs)
     if mode == "lazy_raises":
@@ -1001,6 +1461,10 @@ def gen_fail_case(rng: random.Random, backend: str) -> dict:
         # safetensors keys are names: the same initializer name in two graphs is rejected up front
         specs.append({"kind": "mem", "dtype": "UINT8", "shape": [3], "seed": 5, "name": "same", "graph": 0})
         specs.append({"kind": "mem", "dtype": "UINT8", "shape": [3], "seed": 6, "name": "same", "graph": 2})
+    elif mode == "reserved_name":
+        # the header key `__metadata__` is reserved by the container format (D434): rejected up front
+        specs.append({"kind": "mem", "dtype": rng.choice(["UINT8", "FLOAT"]), "shape": [rng.choice([3, 80])], "seed": 7,
+                      "name": "__metadata__", "graph": rng.choice([0, 0, 2])})
     elif mode == "abs_path":
         case["ext"] = "<ABS>"  # an absolute path into the (writable) scratch directory: must be rejected up front
     elif mode == "validate":
@@ -1094,6 +1558,93 @@ def part_a(ctx: Ctx) -> None:
                     st_failed.add(repr([sizes, mxs]))
                     ctx.fail("shard-limit:st:" + ("zero-size-companions" if zero == len(g) - 1 else "several"),
                              "a multi-tensor safetensors shard exceeds the limit", [sizes, mxs, groups])
+    # safetensors dtype tables: the model's tables against the code's tables (exhaustive), the migration set
+    # against the behaviour of _migrate_tensor_shape_dtype on every DataType member, and the binding's names /
+    # header names / dtype order against one real file holding a tensor of every binding dtype
+    import onnx_ir as ir
+
+    tabs = lean_batch_parallel([{"m": "layout.st_tables"}])[0]
+    impl_tabs = {
+        "ir_to_name": [[k.value, v] for k, v in st._IR_DTYPE_TO_SAFETENSORS_DTYPE.items()],
+        "st_to_ir": [[k, v.value] for k, v in st._SAFETENSORS_DTYPE_TO_IR_DTYPE.items()],
+    }
+    probe = ir.ExternalTensor("x.safetensors", 0, 1, ir.DataType.UINT8, shape=ir.Shape([1]), name="n", base_dir="")
+    mig = []
+    for d in ir.DataType:
+        r = st._migrate_tensor_shape_dtype(types.SimpleNamespace(dtype=d, shape=ir.Shape([3])), probe)
+        if r is not probe:
+            mig.append(d.value)
+    impl_tabs["migrated"] = sorted(mig)
+    tabs_cmp = dict(tabs, migrated=sorted(tabs.get("migrated", [])))
+    for key in ("ir_to_name", "st_to_ir", "migrated"):
+        ctx.case(["st-table", key], nontrivial=True, fn="st-table")
+        if tabs_cmp.get(key) != impl_tabs[key]:
+            ctx.disagree(f"safetensors table {key}: model != implementation", {"table": key}, tabs_cmp.get(key), impl_tabs[key])
+    ctx.exhaustive_scopes.append("safetensors dtype tables: every entry of _IR_DTYPE_TO_SAFETENSORS_DTYPE and "
+                                 "_SAFETENSORS_DTYPE_TO_IR_DTYPE, _migrate_tensor_shape_dtype on every DataType member, "
+                                 "one real file with a tensor of every binding dtype (header names, dtype order)")
+    try:
+        import ctypes
+
+        sfl = st._import_safetensors()
+        names_tab = tabs.get("names", [])
+        refs, tspecs = [], {}
+        for pyname, _h, _rank, bits in names_tab:
+            data = bytearray(b"\x00" * (8 if _h == "F4" else 8 * bits // 8))  # the binding doubles F4's last dimension
+            view = (ctypes.c_char * len(data)).from_buffer(data)
+            refs.append((data, view))
+            tspecs[pyname] = sfl.TensorSpec(dtype=pyname, shape=[8], data_ptr=ctypes.addressof(view), data_len=len(data))
+        with tempfile.TemporaryDirectory(prefix="c07-tab-", dir=_run_dir()) as td:
+            sfl.serialize_file(tspecs, os.path.join(td, "t.safetensors"))
+            raw = open(os.path.join(td, "t.safetensors"), "rb").read()
+        _n, entries, _m = parse_safetensors(raw)
+        got = [[e[0], e[1]] for e in entries]
+        want = [[r[0], r[1]] for r in sorted(names_tab, key=lambda r: -r[2])]
+        ctx.case(["st-table", "names"], nontrivial=True, fn="st-table")
+        if got != want:
+            ctx.disagree("safetensors binding names / header names / dtype order: model != library", {"table": "names"},
+                         want, got)
+        if set(st._IR_DTYPE_TO_SAFETENSORS_DTYPE.values()) - {r[0] for r in names_tab}:
+            ctx.disagree("a dtype name the code hands to the binding is not in the model's table", {"table": "names"},
+                         sorted(r[0] for r in names_tab), sorted(set(st._IR_DTYPE_TO_SAFETENSORS_DTYPE.values())))
+    except Exception as e:  # noqa: BLE001
+        ctx.disagree("safetensors table experiment failed", {"table": "names"}, None, f"{type(e).__name__}: {e}")
+    # the container model on shards handed straight to the library (names with escapes / non-ASCII, every dtype,
+    # empty shard): whole file image byte for byte
+    weird = ["a", "b", "ab", "B", "\u00e9", "a b", 'q"q', "z\\z", "\x01", "", "a\u20ac", "\U0001F600", "w.0/x", "\t",
+             "\x7f", "\n\r", "a\x1fb", "__x__", "0", "~"]
+    dts = list(st._IR_DTYPE_TO_SAFETENSORS_DTYPE)
+    st_reqs, st_impl, st_cases = [], [], []
+    import ctypes
+
+    sfl = st._import_safetensors()
+    with tempfile.TemporaryDirectory(prefix="c07-stf-", dir=_run_dir()) as td:
+        for it in range(ctx.pick(150, 1500)):
+            names = rng.sample(weird, rng.randrange(0, 7))
+            tens, refs, tspecs = [], [], {}
+            for nm in names:
+                dt = rng.choice(dts)
+                shape = rng.choice([[], [0], [1], [3], [2, 3], [5, 1, 2], [0, 4]])
+                nb = (_prod(shape) * dt.bitwidth + 7) // 8
+                data = bytearray(rng.randrange(256) for _ in range(nb))
+                view = (ctypes.c_char * len(data)).from_buffer(data)
+                refs.append((data, view))
+                tspecs[nm] = sfl.TensorSpec(dtype=st._IR_DTYPE_TO_SAFETENSORS_DTYPE[dt],
+                                            shape=st._get_tensor_storage_shape(types.SimpleNamespace(
+                                                dtype=dt, nbytes=nb, shape=ir.Shape(shape))),
+                                            data_ptr=ctypes.addressof(view), data_len=len(data))
+                tens.append({"name": nm, "dtype": dt.value, "shape": shape, "b": bytes(data).hex()})
+            pth = os.path.join(td, f"{it}.safetensors")
+            sfl.serialize_file(tspecs, pth)
+            st_reqs.append({"m": "layout.st_file", "tensors": tens})
+            st_impl.append(open(pth, "rb").read().hex())
+            st_cases.append([[t["name"], t["dtype"], t["shape"]] for t in tens])
+            os.remove(pth)
+    for case_, impl_, out_ in zip(st_cases, st_impl, lean_batch_parallel(st_reqs)):
+        ctx.case(["st_file", case_, impl_[:64]], nontrivial=bool(case_), fn="st_file", st_file_tensors=len(case_))
+        if out_.get("file") != impl_ or not out_.get("ok"):
+            ctx.disagree("st_file: container model != library", {"fn": "st_file", "tensors": case_},
+                         {k: _short(v) for k, v in out_.items()}, _short(impl_))
     # file names
     stems = ["a", "model", "m.v1", "m.fp16", ".hidden", "..", "a.", "a..b", "a.1", "a.b_c", "a.é", "a-b.data",
              "a.b.c.d", "x.safetensors", "m.v1.safetensors", "", "a.B9_", "a._b", "1.2.3"]
@@ -1263,6 +1814,10 @@ def run(ctx: Ctx) -> None:
 def _run(ctx: Ctx) -> None:
     # corpus first
     corpus = [c["case"] if "case" in c and "tensors" in c.get("case", {}) else c for c in load_corpus("C07")]
+    deep_corpus = [c.get("case", c) for c in load_corpus("C07")]
+    deep_corpus = [c for c in deep_corpus if isinstance(c, dict) and c.get("family") in ("debug", "seq")]
+    if deep_corpus:
+        _compare_deep(ctx, run_deep_chunk([{k: v for k, v in c.items() if k != "ops_done"} for c in deep_corpus]))
     corpus = [c for c in corpus if isinstance(c, dict) and "tensors" in c]
     if corpus:
         _compare(ctx, run_chunk(corpus))
@@ -1291,6 +1846,11 @@ def _run(ctx: Ctx) -> None:
     chunks = [cases[i::32] for i in range(32)]
     results = [r for part in pmap(run_chunk, [ch for ch in chunks if ch]) for r in part]
     _compare(ctx, results)
+    # deepening round: restore loop through the setter (DEBUG mode, duck-typed tensors) and call sequences
+    deep = [gen_debug_case(ctx.rng) for _ in range(ctx.pick(160, 1600))] + \
+           [gen_seq_case(ctx.rng) for _ in range(ctx.pick(320, 3200))]
+    dchunks = [deep[i::32] for i in range(32)]
+    _compare_deep(ctx, [r for part in pmap(run_deep_chunk, [ch for ch in dchunks if ch]) for r in part])
 
 
 def _probe_shard_names(case: dict) -> list[str]:
@@ -1303,7 +1863,15 @@ def _probe_shard_names(case: dict) -> list[str]:
 
 def replay(ctx: Ctx, obj: dict) -> None:
     case = obj.get("case", obj)
-    if isinstance(case, dict) and "tensors" in case:
+    if isinstance(case, dict) and case.get("family") in ("debug", "seq"):
+        import shutil
+
+        try:
+            _compare_deep(ctx, run_deep_chunk([{k: v for k, v in case.items() if k != "ops_done"}]))
+        finally:
+            shutil.rmtree(_run_dir(), ignore_errors=True)
+            _RUN_DIR.clear()
+    elif isinstance(case, dict) and "tensors" in case:
         case = {k: v for k, v in case.items() if k in (
             "backend", "tensors", "thr", "al", "athr", "max", "workers", "dest", "ext", "callback", "subgraphs",
             "sched", "inflight", "fail", "preexisting", "preexisting_probe", "nested", "bare", "chunk")}
